@@ -101,3 +101,55 @@ func lemma_deps_rdeps_inverse(g *DirectedTargetGraph, n, d model.BuildNode) ([]m
 //@ func (*DirectedTargetGraph).FindCycle(g) (cycle, found)
 //@   trusted
 //@   pure
+
+// ---- walker (C03, C04, C05) -------------------------------------------------------------------------------------
+
+// success(w, d): node d has completed successfully
+//@ func (*Walker).startNode(w, node) ()
+//@   requires [deps_done] forall j int :: {w.graph.inEdges[labelOf(node)][j]} 0 <= j && j < len(w.graph.inEdges[labelOf(node)]) ==>
+//@        has(w.completions, labelOf(w.graph.inEdges[labelOf(node)][j])) && w.completions[labelOf(w.graph.inEdges[labelOf(node)][j])].IsSuccess
+//@   requires [node] isNode(node)
+//@   pure
+//@   ghostset readyIssued[labelOf(node)] := true
+
+//@ func (*Walker).cancelNode(w, node) ()
+//@   requires [node] isNode(node)
+//@   pure
+//@   ghostset cancelIssued[labelOf(node)] := true
+
+//@ func (*Walker).cancelAll(w) ()
+//@   pure
+
+//@ func (*Walker).onComplete(w, node, completion) ()
+//@   requires [node] isNode(node) && nodesWF(w.graph) && absOutEdges(w.graph) && endpointsAreNodes(w.graph) && w.completions != nil
+//@   modifies contents(w.completions), w.failFastTriggered
+//@   ensures [recorded] has(w.completions, labelOf(node)) && w.completions[labelOf(node)].IsSuccess == completion.IsSuccess
+//@   ensures [keep_going_cancels_descendants] !completion.IsSuccess && !w.failFast && !old(w.failFastTriggered) ==>
+//@        (forall a model.BuildNode :: {reach(w.graph, node, a)} reach(w.graph, node, a) ==> has(cancelIssued, labelOf(a)))
+//@   ensures [failure_releases_nobody] !completion.IsSuccess ==> readyIssued == old(readyIssued)
+//@   ensures [no_release_after_failfast] old(w.failFastTriggered) ==> readyIssued == old(readyIssued)
+//@   ensures [failfast_latches] old(w.failFastTriggered) || (!completion.IsSuccess && w.failFast) ==> w.failFastTriggered
+//@ loop #1
+//@   invariant [cancelled_so_far] forall j int :: {ranged()[j]} 0 <= j && j <= rangeindex ==> has(cancelIssued, labelOf(ranged()[j]))
+//@   invariant [no_release] readyIssued == old(readyIssued)
+//@ loop #3
+//@   invariant [all_so_far] depsDone ==> (forall j int :: {ranged()[j]} 0 <= j && j <= rangeindex ==> has(w.completions, labelOf(ranged()[j])) && w.completions[labelOf(ranged()[j])].IsSuccess)
+
+// C03: "a target's command starts only after ..." - the callback runs only after the ready signal, at most once per routine
+//@ func (*Walker).nodeRoutine(w, ctx, node, info) ()
+//@   requires [selected] isNode(node) && isSel(node)
+//@   requires [graph] nodesWF(w.graph) && absOutEdges(w.graph) && endpointsAreNodes(w.graph) && w.completions != nil
+//@   ensures [callback_at_most_once] callbackRuns <= old(callbackRuns) + 1
+//@   ensures [callback_after_ready] callbackRuns > old(callbackRuns) ==> received(info.ready)
+//@   ensures [success_recorded_only_after_callback] (has(w.completions, labelOf(node)) && !old(has(w.completions, labelOf(node)))) ==> callbackRuns > old(callbackRuns)
+
+// C12/C03: routines exist only for selected nodes (spawn precondition of nodeRoutine); C04: walker state is touched under
+// its mutex or before the first routine is started.
+//@ func (*Walker).Walk(w, ctx) (m, err)
+//@   note exclusive w
+//@   requires [graph] nodesWF(w.graph) && absEdges(w.graph) && absOutEdges(w.graph) && endpointsAreNodes(w.graph) && w.completions != nil && w.nodeInfoMap != nil
+//@ loop #1
+//@   invariant [registered_are_selected] forall j int :: {registrations[j]} 0 <= j && j < len(registrations) ==> isNode(registrations[j].node) && isSel(registrations[j].node)
+//@   invariant [map_allocated] w.nodeInfoMap != nil
+//@ loop #2
+//@   invariant [registered_are_selected] forall j int :: {registrations[j]} 0 <= j && j < len(registrations) ==> isNode(registrations[j].node) && isSel(registrations[j].node)
